@@ -68,3 +68,16 @@ def shape(stmt, keep_ws=False, norm=None):
                 v = norm(node)
             built[id(node)] = (str(node.ttype), v)
     return built[id(stmt)]
+
+
+def flat_shape(stmt, keep_ws=True):
+    """preorder list of [depth, class name or ttype, value-if-leaf]: a tree encoding without nesting, so that comparing or
+    serialising it cannot run into the recursion limit however deep the tree is"""
+    w = Walk(stmt)
+    out = []
+    for n in w.nodes:
+        if getattr(n, 'is_group', False):
+            out.append([w.depth[id(n)], type(n).__name__, None])
+        elif keep_ws or not n.is_whitespace:
+            out.append([w.depth[id(n)], str(n.ttype), n.value])
+    return out
